@@ -216,6 +216,15 @@ def check(run, project):
     from ..roles import MarshalRoles
     from .c02 import primitive_event_once
     primitive_event_once(run, MarshalRoles(project), "NI-4")
+    # NI-5 (= C08-Y2): where strict mode raises an overrun of a region, warn mode's first warning wraps that same error: the
+    # owner of the region recovers (warning, resume at the region's end) exactly from overruns of its own regions and hands
+    # on the others - an ownership test the wrong way round lets the error leave warn mode as an exception instead
+    from ..report import RuleView
+    from . import c08
+    try:
+        c08.y2(RuleView(run, "Y2", "NI-5"), c08.WarnLedger(RuleView(run, "-", "-"), project, "warn"))
+    except AnalysisError as ex:
+        run.info(f"NI-5: the owners' recovery handlers could not be followed ({ex}); not judged here (C08 reports it)")
 
 
 def check_threading(run, project, rule="NI-2"):
